@@ -261,6 +261,7 @@ def _sets():
         "p3": [dict(slope=None, knee=D(0), a=D(0), b=D(1), g=D("2.6"))],
         "prophoto": [dict(slope=D(16), knee=D(1) / D(32), a=D(0), b=D(1), g=D("1.8"))],
         "linear": [dict(slope=D(1), knee=D(2), a=D(0), b=D(1), g=D(1))],
+        "gamma": [dict(slope=None, knee=D(0), a=D(0), b=D(1), g=D(5) / D(11)), dict(slope=None, knee=D(0), a=D(0), b=D(1), g=D("2.2"))],
     }
 
 
